@@ -83,7 +83,8 @@ def main(argv):
             return 64
     seed = int(os.environ.get("VERIF_SEED", "0") or 0)
     t0 = time.time()
-    ev_path = os.path.join(vf.ROOT, "evidence", prop + ".json")
+    # a filtered run (--only / --ob) is a development aid: its partial evidence must not replace the property's evidence file
+    ev_path = os.path.join(vf.ROOT, "evidence", prop + ".json") if not (only or ob_filter) else os.path.join(vf.BUILD, "evidence_partial", prop + ".json")
     os.makedirs(os.path.dirname(ev_path), exist_ok=True)
     mod = importlib.import_module("props." + prop)
     log("== %s (%s tier) against %s" % (prop, tier, vf.REPO))
